@@ -481,22 +481,33 @@ impl From<Mapping> for serde_yaml::Mapping {
     }
 }
 
-impl From<Mapping> for serde_json::Map<String, serde_json::Value> {
-    fn from(m: Mapping) -> Self {
-        let mut new = Self::with_capacity(m.map.len());
-        for (k, v) in m.map {
+impl Mapping {
+    /// Converts the mapping into a JSON object. Returns an error if a key is a sequence or a
+    /// mapping, since such keys can't be turned into JSON object keys.
+    pub(crate) fn try_into_json(self) -> Result<serde_json::Map<String, serde_json::Value>> {
+        let mut new = serde_json::Map::with_capacity(self.map.len());
+        for (k, v) in self.map {
             // JSON keys must be strings, we convert some Value variants to string here
             let k = match k {
                 Value::String(s) | Value::Literal(s) => s,
                 Value::Bool(b) => format!("{b}"),
                 Value::Number(n) => format!("{n}"),
                 Value::Null => "null".to_owned(),
-                _ => panic!("Can't serialize {} as JSON key", v.variant()),
+                _ => return Err(anyhow!("Can't serialize {} as JSON key", k.variant())),
             };
-            new.insert(k, serde_json::Value::from(v));
+            new.insert(k, v.try_into_json()?);
         }
 
-        new
+        Ok(new)
+    }
+}
+
+impl From<Mapping> for serde_json::Map<String, serde_json::Value> {
+    /// # Panics
+    ///
+    /// Panics if a key can't be serialized as a JSON key, see [`Mapping::try_into_json`].
+    fn from(m: Mapping) -> Self {
+        m.try_into_json().unwrap()
     }
 }
 
